@@ -243,7 +243,10 @@ impl Rational { #[verifier::external_body] pub fn to_f64_fast(&self) -> (r: f64)
 impl Approx { pub uninterp spec fn val(&self) -> f64;
     #[verifier::external_body] pub fn value(self) -> (r: f64) ensures r == self.val() { unimplemented!() } }
 impl Integer { #[verifier::external_body] pub fn to_f64(&self) -> (r: Approx) ensures r.val() == f_of_int(self.v()) { unimplemented!() } }
-impl Rational { #[verifier::external_body] pub fn to_f64(&self) -> (r: Approx) ensures r.val() == f_of_q(*self) { unimplemented!() } }
+// dashu-ratio's own conversion; that it is the correctly rounded one (f_of_q) is the separate obligation
+// lemma_dashu_ratio_to_f64_correctly_rounded (false for dashu-ratio 0.4.2: a recorded finding)
+pub uninterp spec fn f_of_q_dashu(q: Rational) -> f64;
+impl Rational { #[verifier::external_body] pub fn to_f64(&self) -> (r: Approx) ensures r.val() == f_of_q_dashu(*self) { unimplemented!() } }
 pub assume_specification [<f64>::abs] (a: f64) -> (r: f64) ensures r == f_abs(a);
 
 pub uninterp spec fn q_of_float(f: f64) -> Rational;                  // the exact value of a finite double
